@@ -221,6 +221,25 @@ def run_decode(s):
         if got != want:
             fail("%s with chunks %r %s" % (what, chunks, got),
                  "it %s, as decoding the whole byte string in %s does" % (want, cs or "ISO-8859-1"))
+    # two contents of the same type decoded at overlapping times (their iter_text() generators advanced alternately):
+    # each must still decode its own bytes
+    c2 = Content(ContentType("text", "plain", {"charset": cs} if cs else None), lambda: list(chunks))
+
+    def interleaved():
+        a, b = c.iter_text(), c2.iter_text()
+        out_a, out_b = [], []
+        for x, y in itertools.zip_longest(a, b):
+            if x is not None:
+                out_a.append(x)
+            if y is not None:
+                out_b.append(y)
+        return "".join(out_a), "".join(out_b)
+    got = outcome(interleaved)
+    if want.startswith("returns"):
+        text = data.decode(cs or "ISO-8859-1")
+        if got != "returns %r" % ((text, text),):
+            fail("two contents with chunks %r decoded alternately: %s" % (chunks, got),
+                 "each of them decodes to %r" % (text,))
 
 
 def run_stream(s):
